@@ -161,6 +161,7 @@ PROPS["C01"] = {
 PROPS["C02"] = {
     "theorems": [
         {"name": "C02_accept_iff_mac", "status": "proved", "statement": "open accepts iff mac = Poly1305(one-time key, ciphertext)"},
+        {"name": "C02_verdict_ignores_the_buffer", "status": "proved", "statement": "forall buffers at least as long as the ciphertext, any contents: crypto_secretbox_open_detached accepts iff the authenticator is Poly1305 of exactly the ciphertext received under the one-time key -- the bytes of a longer message buffer play no part (fix 9abff88)"},
         {"name": "C02_tag_tamper_rejected", "status": "proved", "statement": "any authenticator other than the computed one is rejected"},
         {"name": "C02_short_box_rejected", "status": "proved", "statement": "boxes shorter than 16 bytes -> Err (both forms)"},
         {"name": "C02_short_stream_ciphertext_rejected", "status": "proved", "statement": "stream ciphertexts shorter than 17 bytes -> Err, nothing changed"},
